@@ -417,6 +417,7 @@ ASSUMPTIONS = [
     'domain: len <= cap <= 2^20 elements per vector (harness parameter), element sizes instantiated from {0,1,2,3,8,12,16,24,160}',
     'memory primitives are replaced by their contracts (recorder stubs) in K2 harnesses: copy_bytes (proved equivalent to memmove by k1_lib::copy_bytes_memmove_*), ptr::copy, ptr::copy_nonoverlapping (trusted), element drop_fn / clone_fn fields (recorders; the real closures are checked by bounded K1 harnesses)',
     'storage backend in K2 harnesses is GhostMem, a user-defined backend that relocates on every capacity change; built-in backends have their own K1/K3 harnesses',
+    'drain/splice contracts: elements yielded so far are owned (consumed or still held) by the caller and no yielded handle is used after its iterator was dropped; the history that breaks this in safe code is the open known finding D15 (known_findings.json), exhibited by the finding-kind harnesses k2_range::{drain,splice}_item_outlives_e8',
     'termination is not proved (Kani); every harness is loop-free after stubbing / loop invariants, except loops with a stated unwind bound',
 ]
 
